@@ -52,7 +52,11 @@ def identity_for(cls, rng):
     if cls == "lookalike-markup":
         return {"displayName": ['</ns1:AttributeValue><ns1:AttributeValue>injected', '<saml:Attribute Name="admin"/>', "<!-- c -->", "<![CDATA[x]]>", "<?pi x?>"],
                 "mail": ['x"/><ns1:Attribute Name="urn:oid:2.5.4.42"><ns1:AttributeValue>evil</ns1:AttributeValue></ns1:Attribute>'],
-                "givenName": ["&#x3C;b&#x3E;", "&lt;script&gt;", "%3Cx%3E"]}
+                "givenName": ["&#x3C;b&#x3E;", "&lt;script&gt;", "%3Cx%3E"],
+                # start tags that look like the message's own, namespace declarations and all
+                "sn": ['<samlp:Response xmlns:samlp="urn:oasis:names:tc:SAML:2.0:protocol" ID="x">', '<saml:Assertion xmlns:saml="urn:oasis:names:tc:SAML:2.0:assertion">',
+                       'xmlns:xs="http://www.w3.org/2001/XMLSchema"', '<ds:Signature xmlns:ds="http://www.w3.org/2000/09/xmldsig#"/>',
+                       '<?xml version="1.0" encoding="UTF-8"?>', "<ns0:Envelope xmlns:ns0=\"http://schemas.xmlsoap.org/soap/envelope/\"><ns0:Body>"]}
     if cls == "multibyte":
         return {n: [rng.choice(gen.UNICODE[:6]) + gen.word(rng, 1, 4), "𝔘𝔫𝔦𝔠𝔬𝔡𝔢 " + gen.word(rng, 1, 3)] for n in rng.sample(names, 3)}
     if cls == "padded":
